@@ -35,6 +35,7 @@ type Env struct {
 	// integer fields within their type); evalClause conjoins them to an assumed clause, evalGoal
 	// makes them hypotheses of the goal, so they are never asserted outside the clause's guard
 	side *[]string
+	inPureFact bool
 }
 
 func (e *Env) addFact(key, f string) {
@@ -1323,7 +1324,41 @@ func (e *Env) pureCallIdx(name string, args []Expr, obj types.Object, ridx int) 
 	if len(ts) == 0 {
 		return TV{term: fname, typ: rt}
 	}
-	return TV{term: fmt.Sprintf("(%s %s)", fname, strings.Join(ts, " ")), typ: rt}
+	app := fmt.Sprintf("(%s %s)", fname, strings.Join(ts, " "))
+	e.pureEnsuresFact(fc, sig, ts, app, ridx)
+	return TV{term: app, typ: rt}
+}
+
+// pureEnsuresFact: an application of a pure assumed function that occurs only in a contract (the
+// program never made that call on the path at hand) still satisfies the function's assumed
+// `ensures`: they are added, instantiated at the arguments, to the hypotheses of the clause being
+// evaluated. Skipped under a quantifier (the arguments mention bound variables) and for variadic
+// functions.
+func (e *Env) pureEnsuresFact(fc *FuncContract, sig *types.Signature, ts []string, app string, ridx int) {
+	if e.side == nil || e.inPureFact || ridx != 0 || sig.Variadic() || len(fc.Ensures) == 0 || len(fc.Params) != len(ts) || len(fc.Results) < 1 {
+		return
+	}
+	for _, t := range ts {
+		if strings.Contains(t, "qv!") {
+			return
+		}
+	}
+	if strings.Contains(app, "qv!") {
+		return
+	}
+	env := &Env{vc: e.vc, fr: e.fr, names: map[string]TV{}, bound: map[string]TV{}, st: e.st, old: e.st, pkg: e.pkg, side: e.side, inPureFact: true}
+	for i, p := range fc.Params {
+		env.names[p.Name] = TV{term: ts[i], typ: sig.Params().At(i).Type()}
+	}
+	env.names[fc.Results[0].Name] = TV{term: app, typ: sig.Results().At(0).Type()}
+	env.names["result"] = env.names[fc.Results[0].Name]
+	for _, c := range fc.Ensures {
+		func() {
+			defer func() { recover() }() // a clause that does not bind here (other results, effects) is skipped
+			t := env.evalBool(c.E)
+			e.addFact("pure:"+app, t)
+		}()
+	}
 }
 
 // numericPureAxiom: for a pure assumed function from integers to an integer the `ensures`
